@@ -199,23 +199,24 @@ func (e entry) GetPriority() int { return e.prio }
 // ---------------------------------------------------------------- running a script, with the monitors
 
 type runner struct {
-	prop     string
-	kind     string
-	lq       listQ
-	pq       *priq.PriQueue
-	s        *sched.S
-	tasks    []*sched.Task
-	seenRet  map[*sched.Task]bool
-	spinItem map[*sched.Task]int    // tasks running an *Anyway add → the item
-	waiter   map[*sched.Task]string // tasks blocked in WaitClose / WaitClear ("close" / "clear")
-	cleared  bool
-	spinners int // *Anyway adds started by `addany` that have not returned yet
-	ctx      context.Context
-	cancel   context.CancelFunc
-	quit     chan struct{}
-	hits     []corr.Hit
-	seen     map[string]bool
-	dead     string
+	prop      string
+	kind      string
+	lq        listQ
+	pq        *priq.PriQueue
+	s         *sched.S
+	tasks     []*sched.Task
+	seenRet   map[*sched.Task]bool
+	spinItem  map[*sched.Task]int    // tasks running an *Anyway add → the item
+	waiter    map[*sched.Task]string // tasks blocked in WaitClose / WaitClear ("close" / "clear")
+	cleared   bool
+	skipState string // state of the caller started by the current line, as of the quiescent cut
+	spinners  int    // *Anyway adds started by `addany` that have not returned yet
+	ctx       context.Context
+	cancel    context.CancelFunc
+	quit      chan struct{}
+	hits      []corr.Hit
+	seen      map[string]bool
+	dead      string
 	// what the monitors need, all taken from results of the real calls
 	closed   bool
 	accepted map[int]int // how often each item value was accepted by an add (scripts may repeat a value)
@@ -341,6 +342,8 @@ func (r *runner) quiesce(skip *sched.Task) (rets []string, parked int, ok bool) 
 			break
 		}
 	}
+	// the new caller's own state belongs to the same cut as everything else (never re-read it later)
+	r.skipState = "parked"
 	// retry loops first: an item they got accepted may already have been handed to a consumer
 	for pass := 0; pass < 2; pass++ {
 		for i, t := range r.tasks {
@@ -354,6 +357,9 @@ func (r *runner) quiesce(skip *sched.Task) (rets []string, parked int, ok bool) 
 			}
 			_, res := t.Done()
 			r.seenRet[t] = true
+			if t == skip {
+				r.skipState = "ret:" + res
+			}
 			if isSpin {
 				r.spinners--
 				if res == "ok" {
@@ -655,7 +661,7 @@ func (r *runner) line(l string) string {
 			return "harness-error"
 		}
 		r.monitorQuiescent(l, parked)
-		return t.State() + suffix(rets, parked)
+		return r.skipState + suffix(rets, parked)
 	case "settle":
 		// give pending retry loops a few pauses, then wait for quiescence (the oracle allows both: retried or not yet)
 		if len(f) != 1 {
@@ -681,7 +687,7 @@ func (r *runner) line(l string) string {
 			return "harness-error"
 		}
 		r.monitorQuiescent(l, parked)
-		return t.State() + suffix(rets, parked)
+		return r.skipState + suffix(rets, parked)
 	case "add", "prior", "addc", "priorc":
 		if len(f) != 2 {
 			return "bad-op"
@@ -767,7 +773,7 @@ func (r *runner) line(l string) string {
 			return "harness-error"
 		}
 		r.monitorQuiescent(l, parked)
-		return t.State() + suffix(rets, parked)
+		return r.skipState + suffix(rets, parked)
 	case "trypop":
 		if len(f) != 1 || !isSync {
 			return "bad-op"
@@ -800,7 +806,7 @@ func (r *runner) priLine(f []string, l string) string {
 			r.hit("WaitCh", "consumer-sleeps-beside-items", fmt.Sprintf("after `%s`: %d consumer(s) blocked on WaitCh() while %d entries are queued", l, parked, n))
 		}
 		if skip != nil {
-			res = skip.State() // read only after quiescence
+			res = r.skipState // as of the quiescent cut
 		}
 		return res + suffix(rets, parked)
 	}
